@@ -7,7 +7,7 @@ Everything is shared with C08 (`Proofs/C08.lean`: monitor exactness, refinement 
 this file states the client-role instances and the "resumes" clauses on the model.
 -/
 namespace NetVerif.Proofs.C09
-open NetVerif.Model.SendWin NetVerif.Model.Flow NetVerif.Proofs.SendWin NetVerif.Proofs.Flow NetVerif.Proofs.C08
+open NetVerif.Model.SendWin NetVerif.Model.Flow NetVerif.Proofs.SendWin NetVerif.Proofs.SendWinFlow NetVerif.Proofs.C08
 
 /-- All traces of the client mechanism (`awaitFlowControl`, `processSettingsNoWrite` with the ignored
 `cs.flow.add(delta)`, `processWindowUpdate`) satisfy the property, for every server behaviour and every
